@@ -29,6 +29,7 @@ package common
 //@   ensures reserved_spelling_is_escaped: (lastResult(formatting.ToPascalCase) in reservedNames) ==> result == lastResult(formatting.ToPascalCase) + "_field"
 //@ func EnumValueIdentifierName
 //@   property C08
+//@   pure
 // (an enum value is spelled k<PascalCase>: no entry of the reserved-word table starts with `k`, so with the table known
 // the escaping branch cannot be taken; it stays in the code for the day the table grows)
 //@   dead-return 1: no reserved word of the table is of the form k<Name>
